@@ -10,6 +10,8 @@ echo
 echo "ALREADY USED (other engineers seeded these before you; yours must be a DIFFERENT kind of mistake, in a different function or mechanism, manifesting through a different kind of input/history):"
 echo "$used"
 echo
+echo "Do NOT use 'git stash' (the stash stack is shared between all worktrees of this repository and other engineers use it concurrently): to toggle your change use 'git diff > /tmp/seedwork$round-$id/p.diff; git apply -R /tmp/seedwork$round-$id/p.diff' and 'git apply /tmp/seedwork$round-$id/p.diff'."
+echo
 echo "Prefer bugs that hide well: ones that need a rare but legitimate combination (a boundary value, a second occurrence, a particular order, state carried over from an earlier operation, a crash/restart at one particular point, behaviour that differs only after a reload from disk), or two small changes that are each harmless alone."
 } > /tmp/seedprompts/$id-r$round.txt
 mkdir -p /tmp/seedwork$round-$id
